@@ -432,7 +432,7 @@ def calls_case(draw, n_inputs=3):
         else:
             name = "h%d" % k
             sig = tuple(g.pick(ptypes) for _ in range(draw(st.integers(1, 3))))
-        f = _helper(g, name, sig)
+        f = _helper(g, name, sig, unnamed_ok=(name == "h%d" % k))
         g.funcs.append(f)
     entry = g.function("f", True, nparams=draw(st.integers(1, 3)), ptypes=ptypes,
                        rtypes=[INT, FLOAT, FLOAT, M.vec("float", 2)], size=draw(st.integers(2, 7)), depth=2)
@@ -466,7 +466,7 @@ def _confusable(a, b):
     return True
 
 
-def _helper(g, name, sig):
+def _helper(g, name, sig, unnamed_ok=False):
     """callee that modifies its own parameters before using them"""
     g.scopes = [gen.Scope()]
     g.names_in_func = set()
@@ -502,12 +502,44 @@ def _helper(g, name, sig):
                     break
             if s is not None:
                 stmts.append(s)
+    # element write, whole reassignment from a value someone else also holds, element write again:
+    # the second write must still land in the callee's own copy
+    for ty, nm in params:
+        if not (M.is_vec(ty) or M.is_mat(ty)) or not g.chance(35):
+            continue
+        shared = [M.Var(n2, t2) for t2, n2 in params if t2 == ty and n2 != nm]
+        shared += [M.Var(gn, gt) for gn, gt in sorted(g.globals.items()) if gt == ty]
+        if not shared:
+            continue
+        v = M.Var(nm, ty)
+        stmts.append(_element_write(g, v))
+        stmts.append(M.ExprStmt(M.Assign(v, "=", g.pick(shared))))
+        if g.chance(50):
+            stmts.append(M.ExprStmt(M.Assign(v, "=", g.pick(shared))))
+        stmts.append(_element_write(g, v))
+        if g.chance(50):
+            stmts.append(_element_write(g, v))
     g.budget = g.d(st.integers(0, 4))
     while g.budget > 0:
         stmts.append(g.stmt(1))
     stmts.append(M.Return(g.any_expr(g.ret_ty, 2)))
     g.pop()
+    if unnamed_ok and g.chance(25):
+        # a parameter without a name (only its type is spelled): the named ones keep their positions
+        pos = g.d(st.integers(0, len(params)))
+        params.insert(pos, (g.pick([INT, FLOAT]), "unnamed_%d" % pos))
     return M.Func(name, params, g.ret_ty, M.Block(stmts), False)
+
+
+def _element_write(g, v):
+    """v[i] = e for a vector, v[i][j] = e for a matrix (constant or bounded dynamic indices)"""
+    t = v.ty
+    sc = scalar_of(t)
+    if M.is_vec(t):
+        tgt = M.Index(v, g.comp_index(t[2]), sc)
+    else:
+        tgt = M.Index(M.Index(v, g.comp_index(t[2]), M.vec(t[1], t[3])), g.comp_index(t[3]), sc)
+    return M.ExprStmt(M.Assign(tgt, g.pick(["=", "=", "+="]), g.any_expr(sc, 1)))
 
 
 def _writes(stmt, name):
@@ -571,8 +603,20 @@ def _tree_recursive(g, name):
     a = M.Decl(INT, "a", M.Call(name, [M.Bin("-", n, one), M.Bin("+", acc, one)], INT, idx))
     mod = M.ExprStmt(M.Assign(acc, "=", M.Bin("+", M.Bin("*", acc, two), n)))
     b = M.Decl(INT, "b", M.Call(name, [M.Bin("-", n, two), acc], INT, idx))
-    ret = M.Return(M.Bin("+", M.Bin("+", M.Var("a", INT), M.Bin("*", M.Var("b", INT), M.Lit(3, INT, "3"))), M.Bin("+", acc, n)))
-    return M.Func(name, [(INT, "p0"), (INT, "p1")], INT, M.Block([base, a, mod, b, ret]), False)
+    total = M.Bin("+", M.Bin("+", M.Var("a", INT), M.Bin("*", M.Var("b", INT), M.Lit(3, INT, "3"))), M.Bin("+", acc, n))
+    body = [base, a, mod, b]
+    if g.chance(50):
+        # a local aggregate with inner containers (2-D array), written before the calls and read after them:
+        # every activation owns all of it
+        t2 = M.arr(INT, (2, 2))
+        row = M.arr(INT, (2,))
+        t = M.Var("t", t2)
+        zero = M.Lit(0, INT, "0")
+        el = lambda i, j: M.Index(M.Index(t, i, row), j, INT)
+        body = [base, M.Decl(t2, "t"), M.ExprStmt(M.Assign(el(one, M.Bin("%", n, two)), "=", acc)),
+                M.ExprStmt(M.Assign(el(zero, zero), "+=", n)), a, mod, b]
+        total = M.Bin("+", total, M.Bin("-", M.Bin("+", el(one, zero), el(one, one)), el(zero, zero)))
+    return M.Func(name, [(INT, "p0"), (INT, "p1")], INT, M.Block(body + [M.Return(total)]), False)
 
 
 def _void_helper(g, name, sig):
